@@ -320,9 +320,9 @@ impl World {
     }
 }
 
-fn log_event(pc: usize, ret: &Ret) {
-    let (tid, caus) = loom::verif::current();
-    LOG.with(|l| l.borrow_mut().push(format!("E {} {} {} {}", tid, pc, ret.render(), caus)));
+fn log_event(body: usize, pc: usize, ret: &Ret) {
+    let (_tid, caus) = loom::verif::current();
+    LOG.with(|l| l.borrow_mut().push(format!("E {} {} {} {}", body, pc, ret.render(), caus)));
 }
 
 unsafe fn extend<'a, T: ?Sized>(r: &'a T) -> &'static T {
@@ -335,6 +335,10 @@ pub fn run_thread(w: Rc<World>, body: usize) {
     let ops = &prog.threads[body];
     // the loom thread id, needed as a key for guards
     let (tid, _) = loom::verif::current();
+    if body == 0 {
+        // handle used by `unpark 0`
+        w.thread_handles.borrow_mut().insert(0, loom::thread::current());
+    }
     let mut results: HashMap<usize, Ret> = HashMap::new();
     let mut pc = 0usize;
     while pc < ops.len() {
@@ -348,7 +352,7 @@ pub fn run_thread(w: Rc<World>, body: usize) {
             continue;
         }
         let ret = exec_op(&w, tid, op);
-        log_event(pc, &ret);
+        log_event(body, pc, &ret);
         results.insert(pc, ret);
         pc += 1;
     }
